@@ -79,6 +79,21 @@ func c04eom(p *Program, r *Report, rule string) {
 			errv := pa.Ret[1]
 			switch {
 			case errv.Key() == "G:io.EOF":
+				// a clean end must come from an EOF-class error of the layer below, nothing else (e.g. not the read-limit error)
+				eofClass := false
+				for _, e := range pa.Calls("errors.Is") {
+					if dv, ok := pa.Decided(e.Res.Key()); ok && dv && keyIs(e.Args[0], "call:limitReader.Read@@#1") {
+						if argKey(e, 1) == "G:io.EOF" {
+							eofClass = true
+						}
+						if argKey(e, 1) == "G:io.ErrUnexpectedEOF" && v.Bool("msgReader.flate") {
+							eofClass = true
+						}
+					}
+				}
+				if !eofClass {
+					return "CLEAN-ON-NON-EOF-ERROR"
+				}
 				return "CLEAN"
 			case nilness(errv, pa) == -1:
 				// nil only if the underlying read returned nil
@@ -247,6 +262,9 @@ func c04adapters(p *Program, r *Report, rule string) {
 				return false, fmt.Sprintf("reader cleared=%v on err==io.EOF:%v", cleared, eof)
 			}
 			errv := pa.Ret[1]
+			if !keyIs(pa.Ret[0], "call:invoke io.Reader.Read@@#0") {
+				return false, "the count of the message reader's Read is not returned (bytes delivered together with io.EOF would be lost): returns " + pa.Ret[0].Key()
+			}
 			if eof {
 				if nilness(errv, pa) != -1 {
 					return false, "io.EOF of a message not converted to nil: " + errv.Key()
